@@ -79,6 +79,9 @@ Proof.
   - unfold render_children_restoring. rewrite slot_set. exact Hx.
   - exact Hx.
   - rewrite slot_fail0. exact Hx.
+  - revert x Hx. induction args as [|a args IHa]; intros x Hx; [exact Hx|]. cbn [fold_left]. apply IHa. apply R_inv. exact Hx.
+  - reflexivity.
+  - rewrite slot_set. exact Hx.
 Qed.
 
 Lemma chain_inv e kids next el l : forall x, slot x = None -> slot (chain_with R e kids next el l x) = None.
